@@ -1,7 +1,7 @@
 from vlib.core import *
 
 META = dict(
-    level_text="Noninterference proved in Lean at two levels. (1) Orchestration model shared by HermEigsBase and GenEigsBase, for EVERY behaviour of the numeric kernels that reads only the live part of the factorization object: from ANY two object states (fresh, reused after any history of init/compute calls incl. non-converging and throwing ones, torn by an exception), init(v); compute(args) yields the same return value or exception, eigenvalues, eigenvectors, num_iterations, num_operations and (on return) info (c06_init_total, c06_history_independent, c06_fresh_vs_reused). (2) That hypothesis is DISCHARGED for the executable numeric kernel record of the symmetric family (Arnoldi.init, Lanczos.factorize_from incl. the re-orthogonalisation loop and expand_basis, TridiagQR shift loop, compress_H/compress_V, TridiagEigen, convergence test, V*y) by read/write footprint lemmas (herm_respects): init rebuilds V, H, f, beta, k from (operator, v0, const members) whatever the old object was, every kernel commutes with forgetting the trace counters, const members are never written; giving the UNCONDITIONAL theorems c06_herm_init_total / c06_herm_history_independent / c06_herm_fresh_vs_reused (every operator, every (n, nev, ncv), every two histories, every argument tuple; bit-identity because model functions are functions), c06_trace_counters_inert, c06_stale_basis_columns_harmless / c06_factorize_writes_before_reads (the C++ resize() keeps the stale columns >= 1 of a reused m_fac_V while the model zero-fills: factorize_from writes every column before reading it, so the C++-faithful init and the model's init give the identical object after the first factorization, for every old matrix of the right shape), and c06_two_solvers_one_op / c06_two_solvers_independent (any interleaving of calls on two solvers over one operator). (2b) The hypothesis is likewise DISCHARGED for the numeric kernel record of the GENERAL family GenSolver.genKern (Arnoldi.init, Arnoldi.factorize_from, the single/double-shift restart loop with UpperHessenbergQR/DoubleShiftQR + compress_H/compress_V, HessEigen on H, complex convergence test, V*y over complex pairs) by gen_respects (Proofs/C06Gen.lean), giving the unconditional c06_gen_init_total / c06_gen_history_independent / c06_gen_fresh_vs_reused / c06_gen_two_solvers_independent / c06_gen_two_solvers_one_op for GenEigsSolver and GenEigsRealShiftSolver, and c06_gencs_init_total / c06_gencs_history_independent for GenEigsComplexShiftSolver (GenSolver.computeCS: the sort_ritzpair prologue reads only V, the Ritz vectors/values and the operator at the probe shift as a fixed function; computeWith_sim); the stale-columns argument for the general family's Arnoldi.factorize_from is c06_gen_stale_basis_columns_harmless / c06_gen_factorize_writes_before_reads). Operator-side state: event model of set_shift/perform_op; the installed shift after construct and ANY history equals the constructor's for the real-shift classes (c06_op_shift_real) and for GenEigsComplexShiftSolver as the code is now (c06_op_shift_complex, c06_op_shift_complex_compute, c06_op_shift_complex_throw_in_probe) on every path incl. the user's operator throwing inside the root-selection probe (try/catch handler modelled); both earlier versions of the code are refuted for every shift/probe/count (c06_op_shift_complex_old_refuted: no restore, F3; c06_op_shift_complex_unguarded_refuted: restore on the normal path only, F3b). Structural facts regenerated from the headers on every run: all four random generators are non-static locals seeded by 0 or seed+123*iter (c06_seed_pure), no static-storage variable and exactly the eleven known mutable scratch members (c06_no_hidden_state). The same model definitions run at Float against the real SymEigsSolver/SymEigsShiftSolver and GenEigsSolver/GenEigsRealShiftSolver (`gen` requests answered by GenSolver.genKern) on fresh, reused and second-solver runs (bit-exact up to the final V*Y product), the operator event trace incl. the probe shift computed from the source-translated generator is compared bit for bit, and the bitwise fresh/reused/second-solver/interleaved comparison plus operator probes run on all thirteen solver classes.",
+    level_text="Noninterference proved in Lean at two levels. (1) Orchestration model shared by HermEigsBase and GenEigsBase, for EVERY behaviour of the numeric kernels that reads only the live part of the factorization object: from ANY two object states (fresh, reused after any history of init/compute calls incl. non-converging and throwing ones, torn by an exception), init(v); compute(args) yields the same return value or exception, eigenvalues, eigenvectors, num_iterations, num_operations and (on return) info (c06_init_total, c06_history_independent, c06_fresh_vs_reused). (2) That hypothesis is DISCHARGED for the executable numeric kernel record of the symmetric family (Arnoldi.init, Lanczos.factorize_from incl. the re-orthogonalisation loop and expand_basis, TridiagQR shift loop, compress_H/compress_V, TridiagEigen, convergence test, V*y) by read/write footprint lemmas (herm_respects): init rebuilds V, H, f, beta, k from (operator, v0, const members) whatever the old object was, every kernel commutes with forgetting the trace counters, const members are never written; giving the UNCONDITIONAL theorems c06_herm_init_total / c06_herm_history_independent / c06_herm_fresh_vs_reused (every operator, every (n, nev, ncv), every two histories, every argument tuple; bit-identity because model functions are functions), c06_trace_counters_inert, c06_stale_basis_columns_harmless / c06_factorize_writes_before_reads (the C++ resize() keeps the stale columns >= 1 of a reused m_fac_V while the model zero-fills: factorize_from writes every column before reading it, so the C++-faithful init and the model's init give the identical object after the first factorization, for every old matrix of the right shape), and c06_two_solvers_one_op / c06_two_solvers_independent (any interleaving of calls on two solvers over one operator). (2b) The hypothesis is likewise DISCHARGED for the numeric kernel record of the GENERAL family GenSolver.genKern (Arnoldi.init, Arnoldi.factorize_from, the single/double-shift restart loop with UpperHessenbergQR/DoubleShiftQR + compress_H/compress_V, HessEigen on H, complex convergence test, V*y over complex pairs) by gen_respects (Proofs/C06Gen.lean), giving the unconditional c06_gen_init_total / c06_gen_history_independent / c06_gen_fresh_vs_reused / c06_gen_two_solvers_independent / c06_gen_two_solvers_one_op for GenEigsSolver and GenEigsRealShiftSolver, and c06_gencs_init_total / c06_gencs_history_independent for GenEigsComplexShiftSolver (GenSolver.computeCS: the sort_ritzpair prologue reads only V, the Ritz vectors/values and the operator at the probe shift as a fixed function; computeWith_sim); the stale-columns argument for the general family's Arnoldi.factorize_from is c06_gen_stale_basis_columns_harmless / c06_gen_factorize_writes_before_reads). Operator-side state: event model of set_shift/perform_op; the installed shift after construct and ANY history equals the constructor's for the real-shift classes (c06_op_shift_real) and for GenEigsComplexShiftSolver as the code is now (c06_op_shift_complex, c06_op_shift_complex_compute, c06_op_shift_complex_throw_in_probe) on every path incl. the user's operator throwing inside the root-selection probe (try/catch handler modelled); both earlier versions of the code are refuted for every shift/probe/count (c06_op_shift_complex_old_refuted: no restore, F3; c06_op_shift_complex_unguarded_refuted: restore on the normal path only, F3b). Structural facts regenerated from the headers on every run: all four random generators are non-static locals seeded by 0 or seed+123*iter (c06_seed_pure), no static-storage variable and exactly the eleven known mutable scratch members (c06_no_hidden_state). The same model definitions run at Float against the real SymEigsSolver/SymEigsShiftSolver and GenEigsSolver/GenEigsRealShiftSolver (`gen` requests answered by GenSolver.genKern) on fresh, reused and second-solver runs (bit-exact up to the final V*Y product), the operator event trace incl. the probe shift computed from the source-translated generator is compared bit for bit, and the bitwise fresh/reused/second-solver/interleaved comparison plus operator probes run on all thirteen solver classes. Regenerated on every run from the clang AST of the whole library: the only data members that do not own their value (references, pointers, Eigen Ref/Map handles, smart pointers, std::function) are the user's operator / B-operator / matrix, the SVD solver's own operator and inner solver, and the transient sort object's array pointer, so no constructor argument other than the operator or matrix can influence a later call through the caller's variable (c06_only_documented_handles).",
     note="Lean kernel + propext/Classical.choice/Quot.sound; translator; the model's Arnoldi.init rebuilds V from a zero matrix whereas the C++ resize() keeps stale columns >= 1 of an already allocated m_fac_V: shown invisible by c06_stale_basis_columns_harmless (hypotheses: old matrix of the allocated shape, operator returns vectors of length n) and cross-checked by the bitwise oracle; the same resize() argument for m_fac_H/m_fac_f (H is zeroed, f assigned) is by reading; general family: in c06_gencs_* the complex-shift operator at the probe shift is a fixed function (that the installed shift is restored is the subject of c06_op_shift_complex); g++ evaluates rng.random()*sigmar + rng.random() left to right (validated bitwise)",
     technique="Lean 4 proof (simulation relation over the orchestration state machine + per-function footprint lemmas by induction over the loops; event-trace model of the operator) + bit-exact differential correspondence on fresh/reused/shared objects + bitwise implementation-level oracle with operator probes",
     design="§5 C06", harnesses=['c06'])
